@@ -8,7 +8,9 @@
              far (uc_kind / uc_next of uc.c, UcDefs.v), the cut of the word to the size of
              char tag[TAGSZ], memcpy(tag, beg, end - beg) and the terminator
      led.c   led_input / led_line: char ai[AISZ] -- the leading blanks of the prefix, ^T, ^D and the
-             auto-indent carried over from one typed line to the next                              *)
+             auto-indent carried over from one typed line to the next
+     uc.c    uc_trim (a04410e): what is left of a string that snprintf cut to the size of a fixed array
+             (cmp[64] of led_line, vi_msg[512] of vi.c) -- the longest prefix made of whole characters   *)
 From Coq Require Import List NArith ZArith Bool.
 From NV Require Import Bytes GenConsts GenCap UcDefs CapDefs CapDefs2.
 Import ListNotations.
@@ -141,3 +143,36 @@ Definition ai_step_loose (len : Z) (o : aiop) : res Z :=
   | AiTab => if len <? AISZ then (do _ <- ixw AISZ len; do _ <- ixw AISZ (len + 1); Ok (len + 1)) else Ok len
   | _ => ai_step len o
   end.
+
+(* ---------------------------------------------------------------------------------------- *)
+(* (3) uc.c uc_trim                                                                           *)
+
+(* int n = strlen(s); int i = 0;
+   while (i < n && i + uc_len(s + i) <= n) i += uc_len(s + i);
+   [t] is the suffix s + i; a character of length 0 (a NUL inside the string, impossible in a C string) would keep
+   the loop where it is: the fuel runs out *)
+Fixpoint trim_at (fuel : nat) (t : bytes) (i : nat) : res nat :=
+  match fuel with
+  | O => NoFuel
+  | S f =>
+    match t with
+    | [] => Ok i
+    | _ :: _ =>
+      let l := UcDefs.uc_len t in
+      if (l <=? length t)%nat then trim_at f (skipn l t) (i + l) else Ok i
+    end
+  end.
+
+(* ... s[i] = '\0';  the store is inside the string's own strlen + 1 bytes; the answer is the C string left in s *)
+Definition uc_trim (s : bytes) : res bytes :=
+  do i <- trim_at (S (length s)) s 0;
+  if (i <=? length s)%nat then Ok (firstn i s) else OobWr.
+
+(* a string made of whole characters as uc_len counts them: every lead byte is followed by all the bytes it announces *)
+Inductive wholechars : bytes -> Prop :=
+| wc_nil : wholechars []
+| wc_cons : forall s, s <> [] -> (1 <= UcDefs.uc_len s <= length s)%nat ->
+            wholechars (skipn (UcDefs.uc_len s) s) -> wholechars s.
+
+(* snprintf(buf, size, "%s", s); uc_trim(buf);   -- cmp[64], vi_msg[512] *)
+Definition cut_store (size : nat) (s : bytes) : res bytes := uc_trim (firstn (size - 1) s).
